@@ -73,6 +73,13 @@ pub mod verif_hooks {
     /// Fault injection: (worker name, panic instead of returning, not before)
     static FAULT: std::sync::OnceLock<(String, bool, std::time::Instant)> = std::sync::OnceLock::new();
 
+    /// When the injected fault took effect
+    static FAULT_FIRED: std::sync::OnceLock<std::time::Instant> = std::sync::OnceLock::new();
+
+    pub fn fault_fired() -> Option<std::time::Instant> {
+        FAULT_FIRED.get().copied()
+    }
+
     pub fn set_fault(worker: &str, panic: bool, after: std::time::Duration) {
         let _ = FAULT.set((worker.to_string(), panic, std::time::Instant::now() + after));
     }
@@ -82,6 +89,8 @@ pub mod verif_hooks {
     pub fn fault_point(worker: &str) -> bool {
         if let Some((w, panic, at)) = FAULT.get() {
             if w == worker && std::time::Instant::now() >= *at {
+                let _ = FAULT_FIRED.set(std::time::Instant::now());
+
                 if *panic {
                     panic!("injected fault in worker {}", worker);
                 }
